@@ -48,6 +48,11 @@ def cases(tier, seed):
         if c["noise_src"] in ("channel_data", "channel_model"):
             c["optics_src"] = "data"; c["data_form"] = "image"
         out.append(c)
+    # other shapes and layered members: a size that makes no sense (negative semi-axis, diameter, height) inside its prior's support is an
+    # invalid scatterer -> log-prior -inf and no hologram; an overlap constraint on layered spheres is a fraction of the OUTER diameter
+    for i in range(12 if tier == "quick" else 300):
+        out.append({"id": "shape-%d" % i, "kind": "shapes", "what": ["spheroid", "cylinder_d", "cylinder_h", "layered_overlap", "layered_overlap_mixed", "spheroid_z"][i % 6],
+                    "vkind": "shape", "noise_src": "model", "optics_src": "model", "model": "exact", "data_form": "image", "two": False, "seed": [seed, "shape", i]})
     return out
 
 
@@ -74,7 +79,74 @@ class _Counter:
         return calc_holo(*a, **k)
 
 
+def _run_shapes(case):
+    from holopy.core.prior import Uniform
+    from holopy.core.metadata import detector_grid, update_metadata
+    from holopy.inference import ExactModel
+    from holopy.inference.model import LimitOverlaps
+    from holopy.scattering import calc_holo, Sphere, Spheres, Spheroid, Cylinder
+    from holopy.scattering.theory import Mie, Tmatrix
+    rng = rng_for(*case["seed"])
+    what = case["what"]
+    flags, resid = {}, {}
+    det = detector_grid((4, 5), 0.3)
+    counter = _Counter()
+    kw = dict(noise_sd=0.1, medium_index=1.33, illum_wavelen=0.66, illum_polarization=(1, 0))
+    if what.startswith("layered_overlap"):
+        # two layered spheres side by side; outer radii R0, R1; cores much smaller
+        R0, R1 = float(rng.uniform(0.4, 0.7)), float(rng.uniform(0.4, 0.7))
+        frac = float(rng.uniform(0.05, 0.3))
+        allowed = 2 * min(R0, R1) * frac
+        px = Uniform(0.0, 3.0)
+        lay0 = (0.3 * R0, R0) if what == "layered_overlap" else (0.2 * R0, 0.6 * R0, R0)
+        lay1 = (0.25 * R1, R1)
+        n0 = (1.5, 1.45) if len(lay0) == 2 else (1.5, 1.47, 1.45)
+        sc = Spheres([Sphere(n=n0, r=lay0, center=[0.0, 1.0, 6.0]), Sphere(n=(1.55, 1.4), r=lay1, center=[px, 1.0, 6.0])], warn=False)
+        model = ExactModel(sc, calc_func=counter, theory=Mie, constraints=[LimitOverlaps(frac)], **kw)
+        data = update_metadata(calc_holo(det, Sphere(n=1.5, r=0.5, center=(1, 1, 6)), 1.33, 0.66, (1, 0)), noise_sd=0.1)
+        for tag, ov in (("allowed", 0.8 * allowed), ("touching", 0.0), ("apart", -0.3), ("excluded", 1.25 * allowed)):
+            x = R0 + R1 - ov
+            n_before = counter.n
+            lp = model.lnprior([x])
+            post = model.lnposterior([x], data)
+            want = px.lnprob(x)
+            if tag == "excluded":
+                flags["overlap_beyond_fraction_of_outer_diameter_excluded"] = bool(lp == -np.inf and post == -np.inf)
+                flags["no_hologram_when_excluded"] = bool(counter.n == n_before)
+            else:
+                flags["overlap_within_fraction_of_outer_diameter_allowed@" + tag] = bool(lp == want and np.isfinite(post))
+        return {"resid": resid, "flags": flags, "nparams": 1, "post": None}
+    lo = -float(rng.uniform(0.2, 1.0))
+    pr = Uniform(lo, 1.0)
+    good = float(rng.uniform(0.25, 0.6))
+    bad = float(rng.uniform(lo, -0.01))
+    other = float(rng.uniform(0.3, 0.6))
+    ctr = [1.0, 1.0, 7.0]
+    if what == "spheroid":
+        sc = Spheroid(n=1.5, r=(pr, other), rotation=(0.0, 0.3, 0.0), center=ctr)
+    elif what == "spheroid_z":
+        sc = Spheroid(n=1.5, r=(other, pr), rotation=(0.0, 0.3, 0.0), center=ctr)
+    elif what == "cylinder_d":
+        sc = Cylinder(n=1.5, d=pr, h=other, rotation=(0.0, 0.3, 0.0), center=ctr)
+    else:
+        sc = Cylinder(n=1.5, d=other, h=pr, rotation=(0.0, 0.3, 0.0), center=ctr)
+    model = ExactModel(sc, calc_func=counter, theory=Tmatrix, **kw)
+    data = update_metadata(calc_holo(det, Sphere(n=1.5, r=0.5, center=(1, 1, 7)), 1.33, 0.66, (1, 0)), noise_sd=0.1)
+    n0_ = counter.n
+    lp_bad = model.lnprior([bad])
+    post_bad = model.lnposterior([bad], data)
+    flags["negative_size_inside_support_has_lnprior_minus_inf"] = bool(lp_bad == -np.inf and post_bad == -np.inf)
+    flags["no_hologram_for_invalid_scatterer"] = bool(counter.n == n0_)
+    lp_good = model.lnprior([good])
+    resid["lnprior"] = fnum(abs(lp_good - pr.lnprob(good)))
+    post_good = model.lnposterior([good], data)
+    flags["valid_size_is_evaluated"] = bool(np.isfinite(post_good) and counter.n == n0_ + 1)
+    return {"resid": resid, "flags": flags, "nparams": 1, "post": None, "forward_calls_when_excluded": counter.n - n0_ - 1}
+
+
 def run_case(case):
+    if case.get("kind") == "shapes":
+        return _run_shapes(case)
     import holopy as hp
     import xarray as xr
     from holopy.core.prior import Uniform, Gaussian
@@ -140,6 +212,8 @@ def run_case(case):
     elif case["noise_src"] == "channel_model":
         # per-channel noise given to the MODEL; the dictionary is written in either key order (sorted or not, same or other order than the data's channels)
         kw["noise_sd"] = {"green": 0.12, "red": 0.05} if rng.random() < 0.4 else {"red": 0.05, "green": 0.12}
+        if rng.random() < 0.3:
+            kw["noise_sd"] = [0.05, 0.12]        # a plain list: one value per channel, in the order of the data's channels (red, green)
     constraints = [LimitOverlaps(0.1)] if case["two"] else []
     counter = _Counter()
     if case["model"] == "alpha":
@@ -206,10 +280,13 @@ def run_case(case):
                 return vals[nm]
         raise KeyError(key)
     invalid = val_of("r") < 0
-    e1 = None if invalid else Sphere(n=val_of("n"), r=val_of("r"), center=(val_of("x"), val_of("y"), val_of("z")))
+    # (a value that is not a number is outside every prior's support: the reference sphere is then never used, and a library that
+    # refuses nan centres or radii outright must not stop the harness here)
+    has_nan = any(isinstance(v, float) and v != v for v in vals.values())
+    e1 = None if invalid or has_nan else Sphere(n=val_of("n"), r=val_of("r"), center=(val_of("x"), val_of("y"), val_of("z")))
     if case["two"]:
         invalid = invalid or val_of("r2") < 0
-        e2 = None if val_of("r2") < 0 else Sphere(n=1.6 * nmed / 1.33, r=val_of("r2"), center=(val_of("x2"), 0.7, 6.0))
+        e2 = None if val_of("r2") < 0 or has_nan else Sphere(n=1.6 * nmed / 1.33, r=val_of("r2"), center=(val_of("x2"), 0.7, 6.0))
     alpha_v = val_of("alpha") if case["model"] == "alpha" else (0.85 if case["model"] == "alpha_fixed" else 1.0)
     nmed_v = val_of("nmed") if case["optics_src"] == "mixed" else nmed
     # ---- data
@@ -257,7 +334,7 @@ def run_case(case):
     lp_exp = sum(_lnp(p, v) for p, v in zip(plist, vec))
     if invalid:
         lp_exp = -np.inf
-    if case["two"] and not invalid:
+    if case["two"] and not invalid and not has_nan:
         # overlap constraint recomputed here from centres and radii (every pair, not only list neighbours)
         mem = [(e1.r, e1.center), (e2.r, e2.center)] + ([_mid(case, val_of)[1:]] if case.get("mid") else [])
         worst = max(mem[a][0] + mem[b][0] - float(np.linalg.norm(np.asarray(mem[a][1], float) - np.asarray(mem[b][1], float)))
